@@ -183,7 +183,7 @@ def unit_level(ctx, stats):
     quick = ctx.quick()
     nwl = 300 if quick else 1500
     wls = [gen_workload(rng, quick) for _ in range(nwl)] + [gen_workload(rng, quick, big=True) for _ in range(6 if quick else 40)]
-    corpus = sorted((vlib.CORPUS / "C02").glob("*.json")) if (vlib.CORPUS / "C02").exists() else []
+    corpus = sorted(p for p in (vlib.CORPUS / "C02").glob("*.json") if not p.name.startswith("script_")) if (vlib.CORPUS / "C02").exists() else []
     for p in corpus:
         try:
             c = json.loads(p.read_text())
